@@ -571,8 +571,52 @@ class LowerToIRVisitor(Visitor.DefaultVisitor):
                 ctx.BasicBlock.AddInstruction(result)
                 return result
         elif left.Type.IsMatrix() and right.Type.IsVector():
-            # M <op> V, needs to get lowered to matrix-vector multiply
-            pass
+            # M * V: every component of the result is the dot product of a
+            # matrix row with the vector
+            assert be.GetOperation() == op.Operation.MUL
+
+            leftType = left.Type
+            resultType = ctx.AdaptType(be.GetType())
+            elementType = resultType.ElementType
+            components = []
+            for row in range(leftType.RowCount):
+                leftRow = LinearIR.MatrixAccessInstruction(
+                    leftType.RowType,
+                    left,
+                    ctx.Function.CreateConstant(LinearIR.IntegerType(), row),
+                )
+                ctx.BasicBlock.AddInstruction(leftRow)
+
+                products = LinearIR.BinaryInstruction(
+                    LinearIR.OpCode.VECTOR_MUL, leftType.RowType, leftRow, right
+                )
+                ctx.BasicBlock.AddInstruction(products)
+
+                total = None
+                for column in range(leftType.ColumnCount):
+                    element = LinearIR.VectorAccessInstruction(
+                        elementType,
+                        products,
+                        ctx.Function.CreateConstant(
+                            LinearIR.IntegerType(), column
+                        ),
+                    )
+                    ctx.BasicBlock.AddInstruction(element)
+
+                    if total is None:
+                        total = element
+                    else:
+                        total = LinearIR.BinaryInstruction(
+                            LinearIR.OpCode.ADD, elementType, total, element
+                        )
+                        ctx.BasicBlock.AddInstruction(total)
+                components.append(total)
+
+            result = LinearIR.ConstructPrimitiveInstruction(
+                resultType, components
+            )
+            ctx.BasicBlock.AddInstruction(result)
+            return result
         elif (left.Type.IsMatrix() and right.Type.IsScalar()) or (
             left.Type.IsScalar() and right.Type.IsMatrix()
         ):
